@@ -14,6 +14,9 @@ import SpoxModel.Props.C08
 #print axioms C08.inline_sem
 #print axioms C08.toOnnx_nodes
 #print axioms C08.inline_sem_scope
+#print axioms C08.rename_total
+#print axioms C08.toOnnx_total
+#print axioms C08.inline_sem_total
 #print axioms C08.inline_passthrough_counterexample
 #print axioms C08.inline_passthrough_fixed
 #print axioms C08.functions_refused
